@@ -179,9 +179,15 @@ func (nmds *NumpyMultiDataset) Append(cs *ColumnSeries, tbk TimeBucketKey) (err 
 		return
 	}
 	colSeriesNames := cs.GetColumnNames()
+	colSeriesShapes := cs.GetDataShapes()
 	for idx, name := range nmds.ColumnNames {
 		if name != colSeriesNames[idx] {
 			err = errors.New("data shape mismatch of ColumnSeries and NumpyMultiDataset")
+			return
+		}
+		// the dataset has one type string per column: all series must agree on it
+		if typeStr, ok := typeMap[colSeriesShapes[idx].Type]; !ok || typeStr != nmds.ColumnTypes[idx] {
+			err = errors.New("data type mismatch of ColumnSeries and NumpyMultiDataset")
 			return
 		}
 	}
